@@ -575,9 +575,78 @@ func rulesC14(c *Ctx) {
 		c.paths++
 		got := map[int64]bool{}
 		for _, r := range v.Returns() {
-			if seen[g.VertexOf(r)] {
-				got[codeOf(r)] = true
+			if !seen[g.VertexOf(r)] {
+				continue
 			}
+			k := codeOf(r)
+			if k == -1 && len(r.Results) == 3 {
+				// the code is a variable: the constants assigned to it on the paths this scenario can take — an assignment
+				// counts when it is reachable in the scenario and reaches the return without passing another assignment
+				if cv, isV := v.ObjOf(r.Results[2]).(*types.Var); isV && !cv.IsField() {
+					var constsAt func(cv *types.Var, rv int, depth int) (map[int64]bool, bool)
+					constsAt = func(cv *types.Var, rv int, depth int) (map[int64]bool, bool) {
+						out := map[int64]bool{}
+						if depth > 3 {
+							return out, false
+						}
+						var ws []Write
+						for _, w := range Writes(v.Body, false) {
+							if v.ObjOf(w.LHS) == types.Object(cv) {
+								if _, isVS := w.Stmt.(*ast.ValueSpec); isVS && w.RHS == nil {
+									continue
+								}
+								ws = append(ws, w)
+							}
+						}
+						isW := func(u int) bool {
+							for _, w := range ws {
+								if g.VertexOf(w.Stmt) == u {
+									return true
+								}
+							}
+							return false
+						}
+						if len(ws) == 0 {
+							return out, false
+						}
+						for _, w := range ws {
+							wv := g.VertexOf(w.Stmt)
+							if !seen[wv] {
+								continue
+							}
+							if reach, _ := g.reach(g.succ[wv], isW, nil); !reach[rv] && wv != rv {
+								continue
+							}
+							if w.RHS == nil {
+								return out, false
+							}
+							if z, isC := v.ConstInt(w.RHS); isC {
+								out[z] = true
+								continue
+							}
+							if src, isSrc := v.ObjOf(w.RHS).(*types.Var); isSrc && !src.IsField() {
+								sub, okSub := constsAt(src, wv, depth+1)
+								if !okSub {
+									return out, false
+								}
+								for z := range sub {
+									out[z] = true
+								}
+								continue
+							}
+							return out, false
+						}
+						return out, true
+					}
+					if set, okSet := constsAt(cv, g.VertexOf(r), 0); okSet && len(set) > 0 {
+						for z := range set {
+							got[z] = true
+						}
+						continue
+					}
+				}
+			}
+			got[k] = true
 		}
 		ok := !seen[av]
 		for k := range got {
@@ -667,7 +736,8 @@ func rulesC14(c *Ctx) {
 		scenario("verify:invalid-token", anyOf(append(hdrOK, errM(triFalse), isErr("ErrInvalidToken", triTrue))...)(v), []int64{401}, "verifier says ErrInvalidToken")
 		scenario("verify:oauth-error", anyOf(append(hdrOK, errM(triFalse), isErr("ErrInvalidToken", triFalse), isErr("ErrOAuth", triTrue))...)(v), []int64{400}, "verifier says ErrOAuth")
 		scenario("verify:other-verifier-error", anyOf(append(hdrOK, errM(triFalse), isErr("ErrInvalidToken", triFalse), isErr("ErrOAuth", triFalse))...)(v), []int64{500}, "verifier fails otherwise")
-		scenario("verify:nil-token-info", anyOf(append(hdrOK, errM(triTrue), tokM(triTrue))...)(v), []int64{500}, "verifier returned nil info without error")
+		// (a nil error matches no sentinel)
+		scenario("verify:nil-token-info", anyOf(append(hdrOK, errM(triTrue), tokM(triTrue), isErr("ErrInvalidToken", triFalse), isErr("ErrOAuth", triFalse))...)(v), []int64{500}, "verifier returned nil info without error")
 		okBase := append(hdrOK, errM(triTrue), tokM(triFalse), callIs("Contains", "", triTrue))
 		scenario("verify:missing-expiration-not-allowed", anyOf(append(okBase, callIs("IsZero", "", triTrue), fieldIs("AllowMissingExpiration", triFalse))...)(v), []int64{401}, "no expiration and AllowMissingExpiration is false")
 		scenario("verify:expired-beyond-skew", anyOf(append(okBase, callIs("IsZero", "", triFalse), callIs("Before", "", triTrue))...)(v), []int64{401}, "expiration + skew is before now (for every value of AllowMissingExpiration)")
